@@ -86,7 +86,7 @@ TReconcile ==
            /\ Expect(/\ TmStep(job, job', lastCalls')                      \* (Tm)
                      /\ (Strict => (pr.job = job' /\ pr.r = resv' /\ pr.calls = cs /\ pr.hit = Ev.hit)),
                      \* explain mode: which clause is false in the state reached by this event, and what the transcription predicts
-                     [clauses |-> [G |-> G(cs), Tm |-> TmStep(job, job', lastCalls'), Tt |-> TtInv', Once |-> OnceInv'],
+                     [clauses |-> [G_holds |-> G(cs), Tm_holds |-> TmStep(job, job', lastCalls'), Tt_holds |-> TtInv', Once_holds |-> OnceInv'],
                       transcription |-> pr])
 
 TraceInit == \E i \in Starts :
